@@ -63,6 +63,10 @@ struct Scenario {
     /// ask the question twice over one cache: what a faulty first
     /// resolution leaves in the cache is met by the second one
     twice: bool,
+    /// the question is asked through an alias held by a local authoritative zone
+    /// (`alias.k. CNAME <question name>`): the upstream work then starts from inside
+    /// local resolution
+    via_local_alias: bool,
 }
 
 fn scenarios(tier: Tier) -> Vec<Scenario> {
@@ -88,6 +92,7 @@ fn scenarios(tier: Tier) -> Vec<Scenario> {
             bound,
             window: 24,
             twice: false,
+            via_local_alias: false,
         });
     };
     let fwd = SocketAddr::new(IpAddr::V4(Ipv4Addr::new(10, 9, 9, 9)), 53);
@@ -138,6 +143,7 @@ fn scenarios(tier: Tier) -> Vec<Scenario> {
             bound: tier.pick(0, 1),
             window: 6,
             twice: false,
+            via_local_alias: false,
         });
     }
     // every scenario once more with its question asked twice
@@ -153,6 +159,18 @@ fn scenarios(tier: Tier) -> Vec<Scenario> {
         })
         .collect();
     out.extend(again);
+    // the time bounds when the upstream work starts behind a locally held alias
+    let behind_alias: Vec<Scenario> = out
+        .iter()
+        .filter(|s| !s.twice && matches!(s.mode, Mode::Recursive) && (s.params.is_none() || s.name.contains("styles=[Sibling, Sibling]")))
+        .map(|s| {
+            let mut t = s.clone();
+            t.via_local_alias = true;
+            t.name = format!("{} (asked through a local alias)", s.name);
+            t
+        })
+        .collect();
+    out.extend(behind_alias);
     out
 }
 
@@ -192,7 +210,30 @@ fn spec_for(sc: &Scenario, q: &Question, sticky: Option<(IpAddr, usize)>) -> Run
     } else {
         vec![Step::Ask(q.clone())]
     };
+    let steps = if sc.via_local_alias {
+        let alias = question(&dn("alias.k."), q.qtype);
+        steps.iter().map(|_| Step::Ask(alias.clone())).collect()
+    } else {
+        steps
+    };
     let mut spec = base_spec(sc.universe.clone(), steps);
+    if sc.via_local_alias {
+        let apex = dn("k.");
+        let mut z = dns_types::zones::types::Zone::new(
+            apex.clone(),
+            Some(dns_types::zones::types::SOA {
+                mname: dn("mname.k."),
+                rname: dn("hostmaster.k."),
+                serial: 1,
+                refresh: 2,
+                retry: 3,
+                expire: 4,
+                minimum: 60,
+            }),
+        );
+        z.insert(&dn("alias.k."), cname(&q.name), 300);
+        spec.zones.insert(z);
+    }
     if let Some((a, f)) = sticky {
         spec.sticky = vec![(a, fault_alphabet()[f].clone())];
     }
@@ -263,6 +304,10 @@ fn judge(sc: &Scenario, res: &RunResult) -> Vec<(&'static str, String)> {
                     rrs.push(s.clone());
                 }
                 for r in rrs {
+                    // (the alias of the local zone, where the scenario has one, is local data)
+                    if sc.via_local_alias && r.name == dn("alias.k.") {
+                        continue;
+                    }
                     if !supplied.contains(&nottl(&r)) {
                         out.push((
                             "fabricated-record",
